@@ -4,7 +4,13 @@ From Verif.Model Require Export Keystore ResetKeystore.
 
 (* number of leading identifier bits the harness hands over *)
 Definition keyW : nat := 20.
-Definition mk (v : N) (i : N) : mhk := {| mbits := kb keyW v; mid := i |}.
+(* The remaining 236 bits of an identifier are not handed over.  They only matter to a
+   query whose prefix is longer than keyW, and the only such query the harness makes is the
+   complete identifier of a pool key; distinct keys have distinct identifiers (sha256, checked
+   per pool), so for exactly these queries the tail can be represented by the key's identity. *)
+Definition idW : nat := 16.
+Definition mk (v : N) (i : N) : mhk := {| mbits := kb keyW v ++ kb idW i; mid := i |}.
+Definition fullp (v : N) (i : N) : bits := kb keyW v ++ kb idW i.
 
 (* ---- part 1: plain keystore -------------------------------------------- *)
 Inductive op :=
